@@ -463,11 +463,28 @@ def r5_naming_selection(ctx):
     bodies = {}
     for f, cname, dump in (("export_json.py", "ExportConfigJSON", "json.dumps"), ("export_yaml.py", "ExportConfigYAML", "yaml.dump"), ("export_toml.py", "ExportConfigTOML", "toml.dumps")):
         fn = ctx.fn(CF + f, f"{cname}.parse")
-        bodies[cname] = [norm(s).replace(dump, "DUMP") for s in K.body_nodoc(fn)]
+        bodies[cname] = [norm(s).replace(dump, "DUMP") for s in _alpha(K.body_nodoc(fn))]
     vals = list(bodies.values())
-    ctx.check(all(v == vals[0] for v in vals), CF, "ExportConfigJSON/YAML/TOML.parse", "the three data formats differ only in the dumper", detail=None if all(v == vals[0] for v in vals) else bodies)
-    s = " ".join(vals[0])
+    # sibling agreement is read modulo local names; a textual difference is not evidence of a different behaviour
+    ctx.form(all(v == vals[0] for v in vals), CF, "ExportConfigJSON/YAML/TOML.parse", "the three data formats differ only in the dumper", detail=None if all(v == vals[0] for v in vals) else bodies)
+    s = " ".join(norm(x) for x in K.body_nodoc(ctx.fn(CF + "export_json.py", "ExportConfigJSON.parse")))
     ctx.form("{'value': data[key][0], 'unit': data[key][1]}" in s and "data[key] = data[key][0]" in s, CF, "ExportConfigJSON.parse", "a (value, unit) pair becomes {'value','unit'} or the bare value")
+
+
+def _alpha(stmts):
+    """Statements with the locally bound names replaced by v0, v1, ... in order of first binding."""
+    from ..normalise import clone
+    stmts = [clone(s) for s in stmts]
+    names = {}
+    for s_ in stmts:
+        for n in ast.walk(s_):
+            if isinstance(n, ast.Name) and isinstance(n.ctx, ast.Store) and n.id not in names:
+                names[n.id] = f"v{len(names)}"
+    for s_ in stmts:
+        for n in ast.walk(s_):
+            if isinstance(n, ast.Name) and n.id in names:
+                n.id = names[n.id]
+    return stmts
 
 
 def r6_loop_state(ctx):
